@@ -129,6 +129,21 @@ def catalogue():
             for tname, bound in FORBIDDEN_KEY_TRAITS:
                 ok = (tname in ("Display", "ToString") and kind == "Public") or (tname == "Clone")
                 add(f"key-trait-{tname}", f"{b[0]} {kind} key used where `{bound}` is required", kk, f"needs::<Key<{vty(b)}, {kind}>, dyn Probe{tname}>(k);" if False else f"fn needs<T: {bound}>(_: &T) {{}} needs(k);", ok)
+        # --- secret key material cannot travel inside a token: no secret kind of key is a footer or a payload
+        # (public kinds are left without a verdict: carrying a public key would leak nothing)
+        for kind in ("Local", "Secret", "PkeSecret"):
+            kk = f"k: Key<{vty(b)}, {kind}>"
+            for tname, bound in [("Footer", "paseto_core::encodings::Footer"), ("Payload", "paseto_core::encodings::Payload")]:
+                add("key-in-token", f"{b[0]} {kind} key used where `{bound}` is required", kk, f"fn needs<T: {bound}>(_: T) {{}} needs(k);", False)
+                add("key-in-token", f"reference to a {b[0]} {kind} key used where `{bound}` is required", f"k: &Key<{vty(b)}, {kind}>", f"fn needs<T: {bound}>(_: T) {{}} needs(k);", False)
+            for purpose in PURPOSES:
+                s_kind = SEALING[purpose]
+                add("key-in-token", f"seal a {b[0]} {purpose} token whose footer is a {kind} key", f"{kk}, s: &Key<{vty(b)}, {s_kind}>, u: UnsealedToken<{vty(b)}, {purpose}, M>", "let _ = u.with_footer(k).seal(s, &[]);", False)
+                add("key-in-token", f"seal a {b[0]} {purpose} token whose claims are a {kind} key", f"{kk}, s: &Key<{vty(b)}, {s_kind}>", f"let _ = UnsealedToken::<{vty(b)}, {purpose}, _>::new(k).seal(s, &[]);", False)
+        for purpose in PURPOSES:
+            # control: the same chains with a byte footer / M claims compile
+            s_kind = SEALING[purpose]
+            add("key-in-token", f"control: seal a {b[0]} {purpose} token with a byte footer", f"s: &Key<{vty(b)}, {s_kind}>, u: UnsealedToken<{vty(b)}, {purpose}, M>", "let _ = u.with_footer(b\"kid\".to_vec()).seal(s, &[]);", True)
         # --- unsealed (plaintext) tokens cannot be serialised; sealed ones can
         for purpose in PURPOSES:
             u = f"u: &UnsealedToken<{vty(b)}, {purpose}, M>"
